@@ -217,3 +217,59 @@ def _from_match(ctx):
         return S.mk_tuple([it.to_term(it.getattr(r, "parts")), it.to_term(it.getattr(r, "_s"))])
 
     ctx.equiv("from_match", code, lambda it: S.mk_tuple([Py.mparts(m), Py.str(encode_abs(Py.mparts(m)))]))
+
+
+# ------------------------------------------------------------------ Relative JSON Pointer (C16)
+
+import specs.relptr as rspec  # noqa: E402
+
+from_parts_abs = z3.Function("pointer_from_parts", Py, Py, Py, Py)
+
+
+@call_contract("jsonpath.pointer:JSONPointer.from_parts")
+def _from_parts_contract(it, fv, args, kwargs):
+    """ASSUMED here (string level bounded in C14): from_parts is a function of the token list and
+    the decoding switches; with both switches off the tokens are str(p) of the given parts."""
+    parts = lib.seq_of(it, args[1])
+    ue, ud = lib.T(it, kwargs.get("unicode_escape", S.TRUE)), lib.T(it, kwargs.get("uri_decode", S.FALSE))
+    it.assumed.append("contract:JSONPointer.from_parts(uninterpreted function of the tokens; bounded in C14)")
+    return from_parts_abs(Py.list(parts), ue, ud)
+
+
+def _rel_setup(ctx, marker):
+    origin, index = ctx.int("origin"), ctx.int("index")
+    base = ctx.seq("base_parts")
+    suffix = ctx.seq("suffix_parts")
+    ctx.require(origin >= 0)
+    n = z3.Length(base) - origin
+    tok = base[n - 1]
+    # scope of the statement: an offset applies to a final array index
+    ctx.require(z3.Implies(z3.And(index != 0, n > 0), z3.Or(z3.And(Py.is_int(tok), Py.i(tok) >= 0), z3.And(Py.is_str(tok), z3.InRe(Py.s(tok), S.RE_CANON_NAT)))))
+    ctx.require(z3.Implies(n > 0, z3.Or(Py.is_int(tok), Py.is_str(tok))))
+
+    def mk(it):
+        ptr_field = S.mk_str("#") if marker else pointer_obj(it, Py.tuple(suffix))
+        rel = it.alloc(ptr.RelativeJSONPointer, {"origin": Py.int(origin), "index": Py.int(index), "pointer": ptr_field}, origin="QUERY")
+        return rel, pointer_obj(it, Py.tuple(base))
+
+    return mk, origin, index, base, suffix
+
+
+def _register_rel(marker):
+    @contract(f"RelativeJSONPointer.to[{'#' if marker else 'pointer'}]==draft", ("C16",), ["jsonpath.pointer:RelativeJSONPointer.to", "jsonpath.pointer:RelativeJSONPointer._int_like"])
+    def _c(ctx, marker=marker):
+        mk, origin, index, base, suffix = _rel_setup(ctx, marker)
+
+        def code(it):
+            rel, bp = mk(it)
+            return it.run_function(method(ptr.RelativeJSONPointer, "to"), [rel, bp], {"unicode_escape": S.FALSE})
+
+        def spec(it):
+            parts = it.run_function(spec_fn(rspec, "to_parts"), [Py.int(origin), Py.int(index), Py.tuple(suffix), S.mk_bool(marker), Py.tuple(base)], {})
+            return from_parts_abs(Py.list(lib.seq_of(it, parts)), S.FALSE, S.FALSE)
+
+        ctx.equiv("RelativeJSONPointer.to", code, spec)
+
+
+_register_rel(True)
+_register_rel(False)
